@@ -247,6 +247,7 @@ structure M4 where
   first : Bool := true          -- the next reply is the greeting
   lastCode : Nat := 0           -- code of the most recent reply
   pendingData : Option Nat := none     -- a synchronous Data call has begun: index of its record
+  pendingAsync : Option Nat := none    -- a chunked delivery has been started: index of its record
 deriving Repr, DecidableEq, Inhabited
 
 /-- expected final reply code for a delivery result -/
@@ -279,7 +280,19 @@ def step4 (lmtp : Bool) (drecs : List DRec) (m : M4) (e : Ev) : Except String M4
           | none => .ok { first := false, lastCode := lc, pendingData := none }
         | _, _ => .ok { m with first := m.first && rs.isEmpty, lastCode := lc }
   -- a Data call that begins right after the 354 reply is the synchronous DATA path
-  | .dataBegin _ k => .ok (if m.lastCode == 354 then { m with pendingData := some k } else m)
+  | .dataBegin _ k => .ok (if m.lastCode == 354 then { m with pendingData := some k } else { m with pendingAsync := some k })
+  -- the transaction ends: if the chunked delivery saw the end of the message (LAST arrived), the reply
+  -- just before is the final reply for that message and must report that delivery's own result
+  | .reset _ | .logout _ =>
+    match m.pendingAsync with
+    | some k =>
+      match drecs[k]? with
+      | some d =>
+        if !lmtp && d.finished && d.rdEnd == .eof && !verdictOk d.ret m.lastCode then
+          .error "C04 the final reply for a chunked message does not report that message's own outcome"
+        else .ok { m with pendingAsync := none }
+      | none => .ok { m with pendingAsync := none }
+    | none => .ok m
   | _ => .ok m
 
 def check4 (lmtp : Bool) (drecs : List DRec) (evs : List Ev) : List String :=
